@@ -124,7 +124,10 @@ def handle : DrvHandler := fun op args =>
         lifecycle,
         exec := fun i n => ((C02.lookupD oT i).bind (fun rows => (rows.find? (·.1 == n)).map (·.2))).getD missing,
         prematch, changeReq, foreignFins, constPatch, lat, rtt, cap,
-        initialH := fun i => (decls.find? (·.id == i)).any (·.gate.initial) }
+        initialH := fun i => (decls.find? (·.id == i)).any (·.gate.initial),
+        -- `handler.reason is not None` of a handler selected under this id for the cause (f7d6401)
+        boundH := fun c i => (decls.filter (fun d => d.id == i && Kopf.C05.gate d.gate c && matched.contains d.id)).any
+          (·.gate.reason.isSome) }
       let s0 : State Nat := { P := C02.lookupD pL, base, ess := 0, marked, blocked, gone := false, noticed, fullyHandled, resumed, now,
                               pending := true, writes := 0 }
       let carried ← match j.getObjVal? "carried" with
